@@ -156,9 +156,9 @@ impl Mappable for ClassFile {
 			runtime_visible_type_annotations: self.runtime_visible_type_annotations.remap(remapper)?,
 			runtime_invisible_type_annotations: self.runtime_invisible_type_annotations.remap(remapper)?,
 
-			module: None, // TODO
-			module_packages: None, // TODO
-			module_main_class: None, // TODO
+			module: self.module, // TODO: remap the class names in there
+			module_packages: self.module_packages,
+			module_main_class: self.module_main_class.remap(remapper)?,
 
 			nest_host_class: self.nest_host_class.remap(remapper)?,
 			nest_members: self.nest_members.remap(remapper)?,
